@@ -26,6 +26,7 @@
   theorems speak about the objects that belong to the connection.
 -/
 import Proofs.ConnRel12
+import Proofs.TmpBytes
 namespace Props.C12
 open ZodbModel ZodbModel.Conn Proofs.Conn
 
@@ -172,5 +173,69 @@ example : (run 3 init corpusProgram).sp.isSome = true ∧
     (step 3 (run 3 init corpusProgram) (.commit .none)).2 = .committed 2 [0] := by decide
 example : (step 3 (run 3 init [.modify 0 1, .savepoint, .modify 0 2, .savepoint, .rollback 0])
     (.rollback 1)).2 = .err .invalidSavepoint := by decide
+
+/-! ### the byte level of the savepoint store (`ZodbModel/TmpBytes.lean`: `TmpStore.store/load/reset` on the
+    bytes of the temporary file, with `Connection.savepoint` keeping `(position, index.copy())`)
+
+    For ALL histories of stores (any oid, 8-byte or absent serial, any data — lengths that fit `p64`),
+    savepoints and rollbacks to any savepoint number: -/
+section TmpStoreBytes
+open ZodbModel.TmpBytes
+
+/-- `load` of the byte-level store is the abstract map oid ↦ (data, serial) of the history: the newest
+    record stored for the oid since the state rolled back to, or the fall-through to the real storage -/
+theorem tmpstore_load_refines (ops : List TmpBytes.Op) (hok : ∀ op ∈ ops, OpOk op) (oid : Bytes) :
+    load (TmpBytes.run ops).t oid = specLoad (TmpBytes.run ops).m oid :=
+  Proofs.TmpBytes.load_of_rel (Proofs.TmpBytes.inv_run ops hok).rel oid
+
+/-- a rollback — `reset` with nothing but the position and the index copy the savepoint kept — gives
+    back, byte for byte, the store (file, position, index) of the moment of the savepoint, and with it
+    the abstract map of that moment; whatever was stored, saved and rolled back in between -/
+theorem tmpstore_rollback_exact_bytes (ops : List TmpBytes.Op) (hok : ∀ op ∈ ops, OpOk op) (k : Nat)
+    (g : T × AMap) (hg : (TmpBytes.run ops).sps[k]? = some g) :
+    (TmpBytes.step (TmpBytes.run ops) (.rollback k)).t = g.1 ∧
+      (TmpBytes.step (TmpBytes.run ops) (.rollback k)).m = g.2 := by
+  have h := Proofs.TmpBytes.reset_exact (Proofs.TmpBytes.inv_run ops hok) hg
+  simp [TmpBytes.step, hg, h]
+
+/-- … so every record read back after the rollback is the one the savepoint held (the statement seeded
+    change C12-18, a read memo that survives `reset`, breaks) -/
+theorem tmpstore_rollback_reads (ops : List TmpBytes.Op) (hok : ∀ op ∈ ops, OpOk op) (k : Nat)
+    (g : T × AMap) (hg : (TmpBytes.run ops).sps[k]? = some g) (oid : Bytes) :
+    load (TmpBytes.step (TmpBytes.run ops) (.rollback k)).t oid = specLoad g.2 oid := by
+  rw [(tmpstore_rollback_exact_bytes ops hok k g hg).1]
+  exact Proofs.TmpBytes.load_of_rel ((Proofs.TmpBytes.inv_run ops hok).sp_rel k g hg) oid
+
+/-- a savepoint records the store and map of its moment (the ghost the two theorems above speak about) -/
+theorem tmpstore_save_records (ops : List TmpBytes.Op) :
+    (TmpBytes.run (ops ++ [.save])).sps = (TmpBytes.run ops).sps ++ [((TmpBytes.run ops).t, (TmpBytes.run ops).m)] := by
+  simp [TmpBytes.run, List.foldl_append, TmpBytes.step]
+
+/-- stores only append: the temporary file grows by exactly the record -/
+theorem tmpstore_store_appends (ops : List TmpBytes.Op) (hok : ∀ op ∈ ops, OpOk op)
+    (o : Bytes) (sr : Option Bytes) (d : Bytes) (h : OpOk (.store o sr d)) :
+    (TmpBytes.step (TmpBytes.run ops) (.store o sr d)).t.file =
+      (TmpBytes.run ops).t.file ++ encEntry ⟨o, sr.getD z64, d⟩ :=
+  (Proofs.TmpBytes.rel_store (Proofs.TmpBytes.inv_run ops hok).rel (Proofs.TmpBytes.inv_run ops hok).pos
+    o sr d h).2.2
+
+/-- non-vacuity: X saved by two savepoints, rollback to the first (the shape of seeded change C12-18);
+    a rollback to a dropped savepoint number changes nothing -/
+def tmpProgram : List TmpBytes.Op :=
+  [.store [0, 1] none [7], .store [0, 2] (some [0, 0, 0, 0, 0, 0, 0, 5]) [], .save, .store [0, 1] none [8, 8],
+   .save, .store [0, 3] none [9]]
+
+example : ∀ op ∈ tmpProgram, OpOk op := by
+  intro op h
+  simp only [tmpProgram, List.mem_cons, List.mem_nil_iff, or_false] at h
+  rcases h with h | h | h | h | h | h <;> subst h <;> simp [OpOk]
+example : load (TmpBytes.run tmpProgram).t [0, 1] = .found [8, 8] z64 := by decide +kernel
+example : load (TmpBytes.run (tmpProgram ++ [.rollback 0])).t [0, 1] = .found [7] z64 ∧
+    load (TmpBytes.run (tmpProgram ++ [.rollback 0])).t [0, 3] = .fallback ∧
+    (TmpBytes.run (tmpProgram ++ [.rollback 0])).t.file.length = 27 + 26 := by decide +kernel
+example : (TmpBytes.run (tmpProgram ++ [.rollback 0, .rollback 1])).t =
+    (TmpBytes.run (tmpProgram ++ [.rollback 0])).t := by decide +kernel
+
+end TmpStoreBytes
 
 end Props.C12
